@@ -2,6 +2,7 @@ import HcProofs.Lemmas.PinXhm
 import HcProofs.Lemmas.Config
 import HcModel.FirstStart
 import HcModel.Generated.ReachLock
+import HcModel.Generated.CfgSave
 /-
   C20 — identity, configuration number and discoverability persist correctly; setup-code acceptance;
   setup URI round trip.
@@ -333,5 +334,36 @@ def reachLockOk : List String → Bool
   | _ => false
 
 theorem reachability_update_serialised : reachLockOk Hc.Generated.reachPath = true := by decide
+
+-- the configuration number across a killed start ---------------------------------------------------------------------
+open Hc.CfgCrash in
+/-- The structure of the accessory database changed (the stored hash `h0` differs from the new structure's hash `h`) and
+    the start that notices it is killed after ANY number `k` of its configuration writes. The next complete start with
+    the new structure announces a configuration number greater than the one controllers saw before the change (by one, or
+    by two when the killed start had already stored its number), stores the new hash, and every later start with that
+    structure announces the same number again. -/
+theorem restructure_crash_still_increases (v h0 h k : Nat) (hne : h0 ≠ h) :
+    let d := crashThenStart false ⟨some v, some h0⟩ h k
+    (d.version = some (v + 1) ∨ d.version = some (v + 2)) ∧ d.hash = some h ∧
+    announced d h = d.version.getD 1 ∧ apply d (startWrites false d h) = d := by
+  match k with
+  | 0 => simp [crashThenStart, startWrites, CfgCrash.apply, CfgCrash.applyW, announced, hne]
+  | 1 => simp [crashThenStart, startWrites, CfgCrash.apply, CfgCrash.applyW, announced, hne]
+  | k + 2 => simp [crashThenStart, startWrites, CfgCrash.apply, CfgCrash.applyW, announced, hne]
+
+open Hc.CfgCrash in
+/-- With the hash stored BEFORE the number, a start killed between the two leaves the new hash next to the old number:
+    the next start sees nothing to announce and controllers keep their cached database for good. -/
+theorem restructure_crash_hash_first_refuted :
+    (crashThenStart true ⟨some 4, some 10⟩ 11 1).version = some 4 ∧ (crashThenStart true ⟨some 4, some 10⟩ 11 1).hash = some 11 := by
+  decide
+
+/-- `(*Config).save` in the source now (Generated/CfgSave.lean) stores the configuration number before the hash of the
+    structure it announces — the order `restructure_crash_still_increases` is about — and nothing it stores is computed
+    from something other than a literal key. -/
+theorem config_save_order_regenerated :
+    Hc.Generated.cfgSaveOrder.idxOf "version" < Hc.Generated.cfgSaveOrder.idxOf "configHash" ∧
+    Hc.Generated.cfgSaveOrder.idxOf "configHash" < Hc.Generated.cfgSaveOrder.length ∧
+    Hc.Generated.cfgSaveOrder.all (· != "?") = true := by decide
 
 end Hc.Props.C20
